@@ -158,6 +158,45 @@ fn fold(src: &str) -> Option<String> {
     Some(format!("num={} str={}", show(num), show(text)))
 }
 
+/// `foldstmt`: both folders asked at STATEMENT level, through the public dispatchers of the
+/// visitor trait, about the right-hand side of the first statement: `rock A like <poetic literal>` /
+/// `rock A with <list>` (`visit_array_push_rhs`) or `X is <poetic literal | expression>`
+/// (`visit_poetic_number_assignment_rhs`). Same answer format as `fold`.
+fn fold_statement(src: &str) -> Option<String> {
+    let program = parse(src).ok()?;
+    let first = match program.code.first()? {
+        Block::NonEmpty(stmts) => stmts.first()?,
+        Block::Empty(_) => return None,
+    };
+    let show = |r: Result<Result<String, String>, ()>| match r {
+        Ok(Ok(value)) => format!("ok:{}", value),
+        Ok(Err(code)) => format!("err:{}", code),
+        Err(()) => "crash".to_string(),
+    };
+    let (num, text) = match first {
+        Statement::ArrayPush(p) => {
+            let rhs = p.value.as_ref()?;
+            (
+                guarded(|| NumericConstantFolder.visit_array_push_rhs(rhs).map(|c| bits(c.value)).map_err(|e| variant_name(&e))),
+                guarded(|| SimpleStringConstantFolder.visit_array_push_rhs(rhs).map(|c| xhex(&c.value)).map_err(|e| variant_name(&e))),
+            )
+        }
+        Statement::PoeticAssignment(rrss::frontend::ast::PoeticAssignment::Number(a)) => (
+            guarded(|| {
+                NumericConstantFolder.visit_poetic_number_assignment_rhs(&a.rhs).map(|c| bits(c.value)).map_err(|e| variant_name(&e))
+            }),
+            guarded(|| {
+                SimpleStringConstantFolder
+                    .visit_poetic_number_assignment_rhs(&a.rhs)
+                    .map(|c| xhex(&c.value))
+                    .map_err(|e| variant_name(&e))
+            }),
+        ),
+        _ => return None,
+    };
+    Some(format!("num={} str={}", show(num), show(text)))
+}
+
 fn walk_request(src: &str, fail_at: Option<usize>) -> Option<String> {
     parse(src).ok().map(|program| walk::walk(&program, fail_at))
 }
@@ -178,6 +217,7 @@ fn respond(line: &str) -> Option<String> {
         }),
         ["lint", src] => Some(lint(&unx(src)?)),
         ["fold", src] => fold(&unx(src)?),
+        ["foldstmt", src] => fold_statement(&unx(src)?),
         ["walk", src, f] => walk_request(&unx(src)?, optional_index(f)?),
         // (harness only) `run` with injected faults of another io::ErrorKind
         ["runk", kind, src, stdin, w, r, _steps] => {
